@@ -1,6 +1,6 @@
 import SigHook.Model.HalfLock
 /-!
-# C18 (continued) — the writer waits for what was in flight, not for what arrives later
+# C18 (continued) — a slot the writer has seen empty cannot hold it again
 
 `write_barrier` keeps one flag per slot, "this slot has been seen empty since I published", and the
 flags are sticky. The theorems below say, for every reachable state of the half-lock model (any number
@@ -10,10 +10,12 @@ of threads, any scripts, any schedule):
 * a flag that is set stays set until the barrier ends (`C18_seen_flags_sticky`),
 * the barrier ends with the very load that sets the second flag (`C18_barrier_ends_when_both_seen`).
 
-So a delivery that enters a slot after the writer has seen that slot empty is never waited for: a
-continuous stream of later deliveries cannot hold the writer. (A writer that demanded to find both
+So a delivery that enters a slot after the writer has seen *that slot* empty is never waited for: a
+continuous stream of deliveries into it cannot hold the writer. (A writer that demanded to find both
 slots empty *in the same pass* would wait for ever under such a stream.) The correspondence check
-holds the real `write_barrier` to the same statement on its own traces (verifkit/c18.py).
+holds the real `write_barrier` to the same statement on its own traces (verifkit/c18.py). What this does
+not say - that the writer waits only for deliveries in flight when it published - is not true of the
+algorithm; see `C18_first_look_can_find_both_slots_busy` below.
 -/
 namespace SigHook.HalfLock
 
